@@ -194,7 +194,7 @@ fn hang_limit() -> Duration {
         std::env::var("VERIF_HANG_SECS")
             .ok()
             .and_then(|s| s.parse().ok())
-            .unwrap_or(60),
+            .unwrap_or(20),
     )
 }
 
@@ -544,6 +544,7 @@ fn check_impl<S: Scenario>(id: &str, tier: Tier) -> i32 {
     let mut harness: Vec<String> = Vec::new();
     let mut samples: Vec<Value> = Vec::new();
     let mut crashes = 0u64;
+    let mut truncated = false;
     // ranges of units still to run; a worker that dies (abort, stack overflow, hang) names
     // the plan it was executing, that plan becomes a violation, and the rest is re-run
     let mut todo: Vec<(u64, u64)> = vec![(0, total)];
@@ -636,8 +637,16 @@ fn check_impl<S: Scenario>(id: &str, tier: Tier) -> i32 {
                             u, k
                         )),
                     }
-                    if crashes > 24 {
-                        harness.push("more than 24 worker crashes; giving up".into());
+                    let same = found
+                        .values()
+                        .filter(|f| f.signature.contains("|abort|") || f.signature.contains("|hang|"))
+                        .map(|f| f.count)
+                        .max()
+                        .unwrap_or(0);
+                    if same >= 3 || crashes >= 12 {
+                        // the same crash keeps recurring: report it, do not grind through
+                        // every remaining unit that would die the same way
+                        truncated = true;
                     } else {
                         if u > start {
                             todo.push((start, u));
@@ -661,7 +670,7 @@ fn check_impl<S: Scenario>(id: &str, tier: Tier) -> i32 {
                 }
             }
         }
-        if !harness.is_empty() {
+        if !harness.is_empty() || truncated {
             break;
         }
     }
@@ -728,6 +737,7 @@ fn check_impl<S: Scenario>(id: &str, tier: Tier) -> i32 {
         "distinct_violation_signatures": unknown.len(),
         "regression_plans_replayed": regressions_run,
         "worker_process_crashes_or_hangs": crashes,
+        "cut_short_after_repeated_crashes": truncated,
         "regression_plans_failing": regression_hits.len(),
     });
     let extra = S::extra_coverage(tier);
@@ -774,7 +784,12 @@ fn check_impl<S: Scenario>(id: &str, tier: Tier) -> i32 {
         }
         return 2;
     }
-    if units_done != total {
+    if truncated {
+        println!(
+            "[{}] exploration cut short after repeated worker crashes/hangs ({} of {} units executed)",
+            id, units_done, total
+        );
+    } else if units_done != total {
         eprintln!("harness error: {} of {} units executed", units_done, total);
         return 2;
     }
